@@ -129,7 +129,8 @@ FunctorManager::Env FunctorManager::createEnv(Context& caller, unsigned id, cons
     entry.ctx_cache.pop_front();
     _ctx->recursion(r + 1);
     _ctx->trace(caller.trace());
-    _ctx->returnCondition(false);
+    /* local variables start every call unset */
+    _ctx->resetRuntime(*entry.functor->ctx);
   }
 
   assert(entry.functor->params.size() == pvals.size());
